@@ -17,6 +17,14 @@ IdAdj(n, t) == t
 INSTANCE AutodiffImpl WITH SAdd <- IAdd, SMul <- IMul, SNeg <- INeg, SDiv <- IDiv, SFn <- IFn,
                            SPow <- IPow, SDPow <- IDPow, SZero <- 0, SOne <- 1, AdjCanon <- IdAdj,
                            LeafTs <- MCLeafTs, Seeds <- MCSeeds
+\* ---- refinement: the implementation-shaped pass implements the atomic abstract specification
+absS == IF stack = <<>> THEN S ELSE pre.S
+Abs == INSTANCE AutodiffAbsSpec WITH SAdd <- IAdd, SMul <- IMul, SNeg <- INeg, SDiv <- IDiv, SFn <- IFn,
+                                    SPow <- IPow, SDPow <- IDPow, SZero <- 0, SOne <- 1, AdjCanon <- IdAdj,
+                                    Seeds <- MCSeeds, aS <- absS
+\* (the cheap stuttering test first: most steps of a pass do not change the abstract state)
+AbsRefined == [][absS' = absS \/ Abs!ANext]_vars
+
 \* the next-state relation restated at the root so that TLC reports one coverage count per action
 MCNext == Build \/ Freeze \/ Begin \/ Eval \/ Deliver \/ Store \/ Clear
 MCSpec == Init /\ [][MCNext]_vars
